@@ -336,6 +336,7 @@ def c10(rep, tier, seed):
 def c07(rep, tier, seed):
     """Strand: one job at a time, in submission order, none lost (Strand.tla)"""
     run_conc(rep, spec_strand(tier), tier, seed, {"C07"})
+    seq.check_execseq(rep, tier)
     rep.assumptions += ["the underlying executor is the harness' VerifPool (no visible operations of its own); strand over "
                         "strand and the real FairThreadPool underneath are not part of the quick tier"]
 
@@ -442,6 +443,8 @@ def c05(rep, tier, seed):
     if tier == "thorough":
         cfgs.append(("Pipeline_C05_thorough.cfg", "programs of length <= 3 x rejection point k in {0,1,2,never}"))
     seq.check_pipeline(rep, cfgs, {"C05"}, tier, crash_key=_inner_task_key)
+    # sequential submission histories over the real executors with reused (intrusive) job objects
+    seq.check_execseq(rep, tier)
     # concurrent part: interleavings of Stop with Submit on the real Strand (Called xor Dropped, Drop only after refusal)
     sp = spec_strand(tier, primary="C05")
     sp.mc_cfgs = []  # the model itself is checked by C07; here the code is validated against it
